@@ -1,2 +1,273 @@
-def run(ctx):
-    pass
+"""C12, readers half: generated Sonar / SARIF (Semgrep, CodeQL) / DefectDojo documents through the real readers
+vs the Coq reader models (model_ok) and the reference extraction (spec_ok)."""
+from __future__ import annotations
+
+import json
+from pathlib import Path
+
+from harness import core
+from harness.core import cZ, clist, cpair, cstr
+
+IMPORTS = "From CM Require Import Harness.RunBase Harness.C12_readers_run Model.Readers Model.Sarif.\n"
+
+RULES = ["python:S5659", "python:S2068", "pythonsecurity:S3649", "python:S1"]
+FILES = ["proj:src/a.py", "proj:b.py", "c.py", "org:proj:d/e.py"]
+STATUSES = ["OPEN", "open", "TO_REVIEW", "To_Review", "RESOLVED", "CLOSED", "REVIEWED", "CONFIRMED"]
+
+
+def cjson(v) -> str:
+    if v is None:
+        return "JNull"
+    if isinstance(v, bool):
+        return f"(JBool {core.cbool(v)})"
+    if isinstance(v, int):
+        return f"(JNum {cZ(v)})"
+    if isinstance(v, str):
+        return f"(JStr {cstr(v)})"
+    if isinstance(v, list):
+        return "(JArr " + clist([cjson(x) for x in v], "json") + ")"
+    if isinstance(v, dict):
+        return "(JObj " + clist([cpair(cstr(k), cjson(x)) for k, x in v.items()], "str * json") + ")"
+    raise TypeError(v)
+
+
+def cfinding(f) -> str:
+    rule, fid, file, sl, sc, el, ec = f
+    return ("{| f_rule := %s; f_id := %s; f_file := %s; f_sl := %s; f_sc := %s; f_el := %s; f_ec := %s |}"
+            % (cstr(rule), cjson(fid), cstr(file), cjson(sl), cjson(sc), cjson(el), cjson(ec)))
+
+
+def observe(rs):
+    out = []
+    for rule, d in rs.items():
+        for file, lst in d.items():
+            for r in lst:
+                for loc in r.locations:
+                    if loc.file == file:
+                        out.append((r.rule_id, r.finding_id, str(file), loc.start.line, loc.start.column, loc.end.line, loc.end.column))
+                        break
+    return out
+
+
+def observe_exact(rs):
+    """One observation per (result, location filed under this key) — a result with two locations in one file is filed twice."""
+    out = []
+    for rule, d in rs.items():
+        for file, lst in d.items():
+            seen = {}
+            for r in lst:
+                locs = [l for l in r.locations if l.file == file]
+                i = seen.get(id(r), 0)
+                seen[id(r)] = i + 1
+                loc = locs[i] if i < len(locs) else locs[-1]
+                out.append((r.rule_id, r.finding_id, str(file), loc.start.line, loc.start.column, loc.end.line, loc.end.column))
+    return out
+
+
+# ---------------------------------------------------------------------------------------------- Sonar
+def gen_sonar_entry(rng, i, hotspot):
+    e = {}
+    rule = rng.choice(RULES)
+    if hotspot:
+        e["ruleKey"] = rule
+        if rng.random() < 0.15:
+            e["rule"] = rng.choice([None, ""])
+    else:
+        e["rule"] = rule
+    e["status"] = rng.choice(STATUSES)
+    if rng.random() < 0.85:
+        e["key"] = f"K{i}"
+    if rng.random() < 0.7:
+        e["message"] = f"msg {i}"
+    e["component"] = rng.choice(FILES)
+    r = rng.random()
+    if r < 0.8:
+        sl = rng.randint(1, 30)
+        e["textRange"] = {"startLine": sl, "endLine": sl + rng.choice([0, 0, 1]), "startOffset": rng.randint(0, 40), "endOffset": rng.randint(0, 80)}
+        if rng.random() < 0.1:
+            del e["textRange"]["endOffset"]
+    elif r < 0.9:
+        e["textRange"] = rng.choice([None, {}])
+    if rng.random() < 0.2:
+        e["flows"] = [{"locations": [{"component": e["component"], "textRange": {"startLine": 1, "endLine": 1, "startOffset": 0, "endOffset": 1}}]}]
+    return e
+
+
+def gen_sonar_doc(rng, malformed=False):
+    doc = {}
+    shape = rng.choice(["both", "both", "issues", "hotspots", "empty_issues_hotspots", "null_issues", "neither"])
+    ni, nh = rng.randint(1, 4), rng.randint(1, 4)
+    if shape in ("both", "issues"):
+        doc["issues"] = [gen_sonar_entry(rng, i, False) for i in range(ni)]
+    if shape in ("both", "hotspots"):
+        doc["hotspots"] = [gen_sonar_entry(rng, 100 + i, True) for i in range(nh)]
+    if shape == "empty_issues_hotspots":
+        doc["issues"] = []
+        doc["hotspots"] = [gen_sonar_entry(rng, 100 + i, True) for i in range(nh)]
+    if shape == "null_issues":
+        doc["issues"] = None
+        doc["hotspots"] = [gen_sonar_entry(rng, 100 + i, True) for i in range(nh)]
+    doc["total"] = ni
+    if malformed:
+        kind = rng.choice(["no_status", "rule_no_colon", "status_int", "issues_dict", "entry_str", "component_missing"])
+        tgt = (doc.get("issues") or doc.get("hotspots") or [None])
+        if kind == "issues_dict":
+            doc["issues"] = {"a": 1}
+        elif tgt and isinstance(tgt[0], dict):
+            e = tgt[rng.randrange(len(tgt))]
+            if kind == "no_status":
+                e.pop("status", None)
+            elif kind == "rule_no_colon":
+                e["rule"] = "S1234"
+                e.pop("ruleKey", None)
+            elif kind == "status_int":
+                e["status"] = 3
+            elif kind == "component_missing":
+                e.pop("component", None)
+                e["textRange"] = {"startLine": 1, "endLine": 1, "startOffset": 0, "endOffset": 1}
+            elif kind == "entry_str":
+                tgt[0] = "x"
+        return shape + "+" + kind, doc
+    return shape, doc
+
+
+# ---------------------------------------------------------------------------------------------- SARIF
+def gen_sarif_loc(rng, codeql):
+    region = {"startLine": rng.randint(1, 40), "startColumn": rng.randint(1, 30), "endLine": rng.randint(1, 40), "endColumn": rng.randint(1, 60)}
+    if codeql:
+        for k in ("startColumn", "endLine", "endColumn"):
+            if rng.random() < 0.25:
+                del region[k]
+    if rng.random() < 0.3:
+        region["snippet"] = {"text": "x = 1"}
+    pl = {"artifactLocation": {"uri": rng.choice(["src/a.py", "b.py", "d/e.py"])}, "region": region}
+    if codeql and rng.random() < 0.15:
+        del pl["region"]
+    return {"physicalLocation": pl}
+
+
+def gen_sarif_run(rng, tool):
+    name = {"semgrep": rng.choice(["Semgrep OSS", "semgrep"]), "codeql": "CodeQL", "other": rng.choice(["Snyk", "bandit"])}[tool]
+    rules = ["python.lang.security.audit.rule-a", "rule-b", "py/path-injection", "x.y.z"]
+    run = {"tool": {"driver": {"name": name}, "extensions": [{"rules": [{"id": "ext/r0"}, {"id": "ext/r1"}]}]}, "results": []}
+    for i in range(rng.randint(0, 4)):
+        res = {"message": {"text": "m"}, "locations": [gen_sarif_loc(rng, tool == "codeql") for _ in range(rng.choice([1, 1, 1, 2, 0]))]}
+        if rng.random() < 0.8:
+            res["ruleId"] = rng.choice(rules)
+        else:
+            res["rule"] = {"index": rng.randint(0, 1), "toolComponent": {"index": 0}}
+        run["results"].append(res)
+    return run
+
+
+def gen_sarif_doc(rng, tool, malformed=False):
+    kinds = rng.choice([[tool], [tool, tool], [tool, "other"], ["other", tool], ["other"], []])
+    doc = {"version": "2.1.0", "runs": [gen_sarif_run(rng, k) for k in kinds]}
+    label = "+".join(kinds) or "no_runs"
+    if malformed and doc["runs"]:
+        run = doc["runs"][0]
+        kind = rng.choice(["no_results", "no_rule", "no_region_semgrep", "loc_no_uri"])
+        if kind == "no_results":
+            del run["results"]
+        elif run["results"]:
+            r = run["results"][0]
+            if kind == "no_rule":
+                r.pop("ruleId", None)
+                r.pop("rule", None)
+            elif r["locations"]:
+                if kind == "no_region_semgrep":
+                    r["locations"][0]["physicalLocation"].pop("region", None)
+                else:
+                    r["locations"][0]["physicalLocation"]["artifactLocation"].pop("uri", None)
+        label += "+" + kind
+    return label, doc
+
+
+def gen_dd_doc(rng, malformed=False):
+    n = rng.randint(0, 5)
+    doc = {"count": n, "results": [{"id": rng.randint(1, 999), "title": rng.choice(["python.django.security.audit.secure-cookies.django-secure-set-cookie", "rule-x"]),
+                                    "file_path": rng.choice(["a.py", "src/b.py"]), "line": rng.randint(1, 50), "description": "d"} for _ in range(n)]}
+    label = f"n{n}"
+    if malformed and doc["results"]:
+        k = rng.choice(["id", "title", "file_path", "line"])
+        del doc["results"][0][k]
+        label += "+no_" + k
+    return label, doc
+
+
+def run_reader(ctx, kind, doc, idx):
+    p = ctx.scratch / f"{kind}_{idx}.json"       # unique path: the readers are @cache'd on the file name
+    p.write_text(json.dumps(doc))
+    try:
+        if kind == "sonar":
+            from core_codemods.sonar.results import SonarResultSet
+            return observe_exact(SonarResultSet.from_json(p))
+        if kind == "semgrep":
+            from codemodder.semgrep import SemgrepResultSet
+            return observe_exact(SemgrepResultSet.from_sarif(p))
+        if kind == "codeql":
+            from codemodder.codeql import CodeQLResultSet
+            return observe_exact(CodeQLResultSet.from_sarif(p))
+        if kind == "dd":
+            from core_codemods.defectdojo.results import DefectDojoResultSet
+            return observe_exact(DefectDojoResultSet.from_json(p))
+    except Exception:
+        return None
+
+
+CORPUS_SONAR = [
+    # witness of C12_sonar (pinned expression): a document with both issues and hotspots
+    ("corpus:issues_and_hotspots", {"issues": [{"rule": "python:S1", "status": "OPEN", "key": "A", "component": "p:a.py",
+                                               "textRange": {"startLine": 1, "endLine": 1, "startOffset": 0, "endOffset": 2}}],
+                                    "hotspots": [{"ruleKey": "python:S2", "status": "TO_REVIEW", "key": "B", "component": "p:a.py",
+                                                  "textRange": {"startLine": 2, "endLine": 2, "startOffset": 0, "endOffset": 2}}]}),
+]
+
+
+def run(ctx: core.Ctx):
+    rng = ctx.rng
+    n = 120 if ctx.quick() else 1200
+    if getattr(ctx, "deep", False):
+        n *= 3
+    plans = {"sonar": ("sonar_model_ok", "sonar_spec_ok"), "semgrep": ("semgrep_model_ok", "semgrep_spec_ok"),
+             "codeql": ("codeql_model_ok", "codeql_spec_ok"), "dd": ("dd_model_ok", "dd_spec_ok")}
+    for kind, (mok, sok) in plans.items():
+        docs = []
+        if kind == "sonar":
+            docs += CORPUS_SONAR
+        for i in range(n if kind == "sonar" else n // 2):
+            malformed = rng.random() < 0.2
+            if kind == "sonar":
+                docs.append(gen_sonar_doc(rng, malformed))
+            elif kind == "dd":
+                docs.append(gen_dd_doc(rng, malformed))
+            else:
+                docs.append(gen_sarif_doc(rng, kind, malformed))
+        cases, meta = [], []
+        for i, (label, doc) in enumerate(docs):
+            obs = run_reader(ctx, kind, doc, i)
+            ctx.count(f"reader:{kind}:{label.split('+')[0] if kind != 'sonar' else label}")
+            ctx.count(f"reader:{kind}:outcome:" + ("exception" if obs is None else "ok"))
+            cases.append(cpair(cjson(doc), core.copt(None if obs is None else clist([cfinding(f) for f in obs], "finding"), "list finding")))
+            meta.append((label, doc, obs))
+            ctx.case({"reader": kind, "doc": doc, "observed": obs}, nontrivial_key=(kind, json.dumps(doc, sort_keys=True)) if obs else None,
+                     sample=bool(obs) and len(obs) >= 2 and kind == "sonar")
+        bad = core.eval_bad_indices(ctx, f"c12_{kind}", IMPORTS, "reader_case", cases, [mok, sok], chunk=150)
+        for i in bad[mok]:
+            label, doc, obs = meta[i]
+            ctx.mismatch(f"{kind} reader vs Model ({mok})", f"reader output differs from the model on a {label} document",
+                         {"reader": kind, "doc": doc, "observed": obs})
+        for i in bad[sok]:
+            label, doc, obs = meta[i]
+            cls = "kf_sonar_hotspots_ignored" if (kind == "sonar" and doc.get("issues") and doc.get("hotspots")) else f"kf_{kind}_reader"
+            ctx.violation(cls, f"{kind} reader does not file the reference extraction of a {label} document: observed {obs}",
+                          {"reader": kind, "doc": doc, "observed": obs,
+                           "expected": "every open issue and hotspot with a textRange / every location of every result of every run"})
+
+
+def replay(ctx, body):
+    obs = run_reader(ctx, body["reader"], body["doc"], 0)
+    print("observed now:", obs)
+    print("recorded    :", body.get("observed"))
+    print("expected    :", body.get("expected"))
+    return 0
